@@ -878,6 +878,23 @@ def concrete(term, argv):
     if k == 'un' and term[1] == 'Not':
         v = concrete(term[2], argv)
         return None if v is None else 1 - v
+    # `x.checked_sub(y)` / `checked_add`: the discriminant of the Option and its payload
+    def checked(t):
+        while isinstance(t, tuple) and t and t[0] in ('ref', 'deref'):
+            t = t[1]
+        if isinstance(t, tuple) and t and t[0] == 'call' and t[1].split('::')[-1] in ('checked_sub', 'checked_add') and len(t[2]) == 2:
+            x, y = concrete(t[2][0], argv), concrete(t[2][1], argv)
+            if x is None or y is None:
+                return None
+            r = x - y if t[1].endswith('checked_sub') else x + y
+            return (0 <= r < (1 << 32), r)
+        return None
+    if k == 'discr':
+        c = checked(term[1])
+        return None if c is None else int(c[0])
+    if k == 'field' and isinstance(term[1], tuple) and term[1] and term[1][0] == 'downcast' and term[1][2] == 'Some' and str(term[2]) == '0':
+        c = checked(term[1][1])
+        return c[1] if c is not None and c[0] else None
     return None
 
 
@@ -907,6 +924,7 @@ def header_allowance(F, R):
                     return 'unevaluable'
                 if (c[0] == 'eq' and cv != c[1]) or (c[0] == 'ne' and cv in c[1]):
                     ok = False
+                    break   # (conditions are in path order: what follows was only evaluated under this one)
             if ok:
                 hits.append(None if st is None else concrete(st, v))
         if len(hits) != 1 or hits[0] is None:
@@ -1105,8 +1123,7 @@ def only_diagnostics(F, R):
             if s['rv']['k'] == 'un' and s['rv']['op'] == 'Not':
                 ap = apath(fb, s['rv']['a'])
                 if ap and ap[-1] == 'request_problem_info':
-                    d = [x for x in fb.whole_defs(op_place(t['args'][2])['l'])] if op_place(t['args'][2]) else []
-                    if any(dd[0] == xb for dd in d):
+                    if any(dd[0] == xb and dd[3] is s for dd in def_chain(fb, t['args'][2])):
                         ap_ok = True
         ok = ap_ok
         msg = 'the flag value is not `!connect.request_problem_info`'
@@ -1167,13 +1184,29 @@ def flag_is(F, b, t, name):
         s = json.dumps(c) if c else ''
         if name in s:
             return True
-        p = op_place(a)
-        if p:
-            for d in b.whole_defs(p['l']):
-                if d[2] == 'assign':
-                    if name in json.dumps(d[3]['rv']):
-                        return True
+        for d in def_chain(b, a):
+            if name in json.dumps(d[3]['rv']):
+                return True
     return False
+
+
+def def_chain(b, op, depth=6):
+    """Assignments an operand's value comes from, through plain copies (`tmp = copy param; param = const X` after a helper
+    was spliced)."""
+    out = []
+    p = op_place(op)
+    seen = set()
+    while p is not None and not place_proj(p) and p['l'] not in seen and depth > 0:
+        seen.add(p['l'])
+        depth -= 1
+        nxt = None
+        for d in b.whole_defs(p['l']):
+            if d[2] == 'assign' and d[0] in b.live:
+                out.append(d)
+                if d[3]['rv']['k'] == 'use' and op_place(d[3]['rv']['op']) is not None:
+                    nxt = op_place(d[3]['rv']['op'])
+        p = nxt
+    return out
 
 
 # ----------------------------------------------------------------------------- reported sizes
